@@ -131,82 +131,118 @@ def pattern_raw_data(repo: Repo, rep, P: str):
         raise AnchorMissing("Pattern.raw_data getter/setter")
     rep.func("rv.pattern.Pattern.raw_data")
     note = repo.cls("Note", module="rv.note")
-    cell = 8
-    # --- setter: loops, offset polynomial, slice width, target cell
-    loops: List[Tuple[str, str]] = []   # (var, bound attr)
-
-    def visit(stmts, stack):
-        for st in stmts:
-            if isinstance(st, ast.For) and isinstance(st.iter, ast.Call) and norm(st.iter.func) == "range" \
-                    and len(st.iter.args) == 1 and isinstance(st.target, ast.Name):
-                ch = attr_chain(st.iter.args[0])
-                b = ch[-1] if ch and ch[0] == "self" else norm(st.iter.args[0])
-                yield from visit(st.body, stack + [(st.target.id, b)])
-            elif isinstance(st, (ast.Assign,)):
-                yield st, stack
-            elif isinstance(st, (ast.If, ast.With)):
-                yield from visit(st.body, stack)
-
-    local_defs: Dict[str, ast.expr] = {}
+    cell_size = 8
+    # --- setter: which cell receives which bytes.  Normal form: helpers inlined, locals resolved; recognised shapes:
+    #   F1  for a in range(self.lines): for b in range(self.tracks): D[a][b].raw_data = raw[lo:hi]
+    #   F2  for i, cell in enumerate(D[a][b] for a in range(self.lines) for b in range(self.tracks)): cell.raw_data = raw[lo:hi]
+    from .. import inline, packed
+    sflat = inline.normalize(repo, pat, s)
+    defs = packed.single_defs(sflat)
+    param = [a.arg for a in sflat.args.args if a.arg != "self"]
+    parents: Dict[int, ast.AST] = {}
+    for n in ast.walk(sflat):
+        for c in ast.iter_child_nodes(n):
+            parents[id(c)] = n
     found = False
-    param = [a.arg for a in s.args.args if a.arg != "self"]
-    for st, stack in visit(stmts_of(s), []):
-        t = st.targets[0]
-        if isinstance(t, ast.Name):
-            local_defs[t.id] = st.value
-            continue
-        # X[a][b].raw_data = <expr>
-        if isinstance(t, ast.Attribute) and t.attr == "raw_data" and isinstance(t.value, ast.Subscript) \
-                and isinstance(t.value.value, ast.Subscript):
-            found = True
-            row_idx = norm(t.value.value.slice)
-            col_idx = norm(t.value.slice)
-            base = t.value.value.value
-            base_src = local_defs.get(base.id) if isinstance(base, ast.Name) else base
-            val = st.value
-            while isinstance(val, ast.Name) and val.id in local_defs:
-                val = local_defs[val.id]
-            vars_ = dict(stack)
-            where = f"{pat.file.rel}:{st.lineno}"
-            if norm(base_src) != "self.data":
-                rep.inconclusive(f"{P}.R2", construct, norm(st), "cell array is not self.data", where)
-                continue
-            if vars_.get(row_idx) != "lines" or vars_.get(col_idx) != "tracks":
-                rep.violation(f"{P}.R2", construct, norm(st),
-                              f"cell index [{row_idx}][{col_idx}] is not [line][track] (loop bounds {vars_})", where)
-                continue
-            if not (isinstance(val, ast.Subscript) and isinstance(val.slice, ast.Slice) and val.slice.step is None
-                    and isinstance(val.value, ast.Name) and val.value.id in param):
-                rep.inconclusive(f"{P}.R2", construct, norm(st), "cell bytes are not a slice of the argument", where)
-                continue
 
-            def leaf(e):
-                if isinstance(e, ast.Name):
-                    if e.id in local_defs and e.id not in vars_:
-                        return alg.to_poly(local_defs[e.id], leaf)
+    def bound_of(e: ast.expr) -> Optional[str]:
+        e = packed.resolve_names(e, defs)
+        if isinstance(e, ast.Call) and norm(e.func) == "range" and len(e.args) == 1:
+            b = packed.resolve_names(e.args[0], defs)
+            ch = attr_chain(b)
+            return ch[-1] if ch and ch[0] == "self" and len(ch) == 2 else norm(b)
+        return None
+    for st in ast.walk(sflat):
+        if not (isinstance(st, ast.Assign) and len(st.targets) == 1 and isinstance(st.targets[0], ast.Attribute) and st.targets[0].attr == "raw_data"):
+            continue
+        t = st.targets[0]
+        where = f"{pat.file.rel}:{st.lineno}"
+        vars_: Dict[str, str] = {}          # loop variable -> bound attribute
+        cur: ast.AST = st
+        enum_loop = None
+        while id(cur) in parents:
+            cur = parents[id(cur)]
+            if isinstance(cur, ast.For):
+                b = bound_of(cur.iter)
+                if b is not None and isinstance(cur.target, ast.Name):
+                    vars_[cur.target.id] = b
+                it = packed.resolve_names(cur.iter, defs)
+                if isinstance(it, ast.Call) and norm(it.func) == "enumerate" and len(it.args) == 1 and isinstance(cur.target, ast.Tuple) \
+                        and len(cur.target.elts) == 2:
+                    enum_loop = (cur, it.args[0])
+        row_e = col_e = base_e = None
+        index_sub: Dict[str, alg.Poly] = {}
+        cell = packed.resolve_names(t.value, defs)
+        if isinstance(cell, ast.Subscript) and isinstance(cell.value, ast.Subscript):
+            row_e, col_e, base_e = cell.value.slice, cell.slice, cell.value.value
+        elif isinstance(t.value, ast.Name) and enum_loop is not None and norm(enum_loop[0].target.elts[1]) == t.value.id \
+                and isinstance(enum_loop[1], (ast.GeneratorExp, ast.ListComp)) and len(enum_loop[1].generators) == 2:
+            ge = enum_loop[1]
+            g1, g2 = ge.generators
+            el = packed.resolve_names(ge.elt, defs)
+            b1, b2 = bound_of(g1.iter), bound_of(g2.iter)
+            if isinstance(el, ast.Subscript) and isinstance(el.value, ast.Subscript) and b1 and b2 and isinstance(g1.target, ast.Name) \
+                    and isinstance(g2.target, ast.Name) and not g1.ifs and not g2.ifs:
+                row_e, col_e, base_e = el.value.slice, el.slice, el.value.value
+                vars_[g1.target.id], vars_[g2.target.id] = b1, b2
+                # the enumerate index of a full nested iteration is a·B + b
+                idx = norm(enum_loop[0].target.elts[0])
+                index_sub[idx] = alg.Poly.sym(g1.target.id) * alg.Poly.sym("self." + b2) + alg.Poly.sym(g2.target.id)
+        if row_e is None:
+            continue
+        found = True
+        row_idx, col_idx = norm(packed.resolve_names(row_e, defs)), norm(packed.resolve_names(col_e, defs))
+        base_src = packed.resolve_names(base_e, defs)
+        val = packed.resolve_names(st.value, defs)
+        if norm(base_src) not in ("self.data", "self._data"):
+            rep.inconclusive(f"{P}.R2", construct, norm(st), "cell array is not self.data", where)
+            continue
+        if vars_.get(row_idx) != "lines" or vars_.get(col_idx) != "tracks":
+            rep.violation(f"{P}.R2", construct, norm(st),
+                          f"cell index [{row_idx}][{col_idx}] is not [line][track] (loop bounds {vars_})", where)
+            continue
+        if not (isinstance(val, ast.Subscript) and isinstance(val.slice, ast.Slice) and val.slice.step is None
+                and isinstance(val.value, ast.Name) and val.value.id in param):
+            rep.inconclusive(f"{P}.R2", construct, norm(st), "cell bytes are not a slice of the argument", where)
+            continue
+
+        def leaf(e):
+            if isinstance(e, ast.Name):
+                if e.id in index_sub:
+                    return index_sub[e.id]
+                if e.id in vars_:
                     return alg.Poly.sym(e.id)
-                ch = attr_chain(e)
-                if ch and ch[0] == "self" and len(ch) == 2:
-                    return alg.Poly.sym("self." + ch[1])
-                return None
+            ch = attr_chain(e)
+            if ch and ch[0] == "self" and len(ch) == 2:
+                return alg.Poly.sym("self." + ch[1])
             try:
-                lo = alg.to_poly(val.slice.lower, leaf) if val.slice.lower is not None else alg.Poly.const(0)
-                hi = alg.to_poly(val.slice.upper, leaf)
-            except alg.NotAlgebraic as e:
-                rep.inconclusive(f"{P}.R2", construct, norm(st), f"offset not polynomial: {e}", where)
-                continue
-            L, T = alg.Poly.sym(row_idx), alg.Poly.sym(col_idx)
-            want = (L * alg.Poly.sym("self.tracks") + T) * cell
-            text = f"offset = {norm(local_defs.get('offset', val.slice.lower))}; slice {norm(val.slice)}"
-            if lo == want:
-                rep.ok(f"{P}.R2", construct, text, f"offset ≡ {cell}·(line·tracks + track)")
-            else:
-                rep.violation(f"{P}.R2", construct, text,
-                              f"cell offset is {lo}, expected row-major {want}", where)
-            if (hi - lo) == alg.Poly.const(cell):
-                rep.ok(f"{P}.R2", construct, f"slice width {cell}")
-            else:
-                rep.violation(f"{P}.R2", construct, text, f"cell slice width is {hi - lo}, expected {cell}", where)
+                v = repo.fold(e, ci=pat, sf=pat.file)
+                if isinstance(v, int) and not isinstance(v, bool):
+                    return alg.Poly.const(v)
+            except NotConst:
+                pass
+            if isinstance(e, ast.Name):
+                return alg.Poly.sym(e.id)
+            return None
+        try:
+            lo = alg.to_poly(val.slice.lower, leaf) if val.slice.lower is not None else alg.Poly.const(0)
+            hi = alg.to_poly(val.slice.upper, leaf)
+        except alg.NotAlgebraic as e:
+            rep.inconclusive(f"{P}.R2", construct, norm(st), f"offset not polynomial: {e}", where)
+            continue
+        L, T = alg.Poly.sym(row_idx), alg.Poly.sym(col_idx)
+        want = (L * alg.Poly.sym("self.tracks") + T) * cell_size
+        text = f"cell [{row_idx}][{col_idx}] ← {norm(val)[:80]}"
+        if lo == want:
+            rep.ok(f"{P}.R2", construct, text, f"offset ≡ {cell_size}·(line·tracks + track)")
+        else:
+            rep.violation(f"{P}.R2", construct, text,
+                          f"cell offset is {lo}, expected row-major {want}", where)
+        if (hi - lo) == alg.Poly.const(cell_size):
+            rep.ok(f"{P}.R2", construct, f"slice width {cell_size}")
+        else:
+            rep.violation(f"{P}.R2", construct, text, f"cell slice width is {hi - lo}, expected {cell_size}", where)
+    s = sflat
     if not found:
         rep.inconclusive(f"{P}.R2", construct, "", "no `data[line][track].raw_data = ...` store found in the setter",
                          f"{pat.file.rel}:{s.lineno}")
@@ -239,6 +275,28 @@ def pattern_raw_data(repo: Repo, rep, P: str):
     ok = False
     detail = ""
     if isinstance(ret, ast.Call) and isinstance(ret.func, ast.Attribute) and ret.func.attr == "join" and len(ret.args) == 1 \
+            and isinstance(ret.args[0], (ast.GeneratorExp, ast.ListComp)) and len(ret.args[0].generators) == 2:
+        # b"".join(cell.raw_data for line in self.data for cell in line): rows in order, cells in order
+        g1, g2 = ret.args[0].generators
+        cv = norm(g2.target)
+        if norm(g1.iter) in ("self.data", "self._data") and norm(g2.iter) == norm(g1.target) and not g1.ifs and not g2.ifs:
+            el = ret.args[0].elt
+            if norm(el) == f"{cv}.raw_data":
+                ok = True
+            elif isinstance(el, ast.IfExp):
+                verdict = _conditional_cell(repo, note, el, cv)
+                if verdict is None:
+                    ok = True
+                elif verdict.startswith("!"):
+                    rep.violation(f"{P}.R2", construct, norm(el), verdict[1:], f"{pat.file.rel}:{g.lineno}")
+                    ok = True
+                else:
+                    detail = verdict
+            else:
+                detail = f"cell bytes are {norm(el)}"
+        else:
+            detail = "flat join does not iterate rows, then the cells of each row"
+    elif isinstance(ret, ast.Call) and isinstance(ret.func, ast.Attribute) and ret.func.attr == "join" and len(ret.args) == 1 \
             and isinstance(ret.args[0], (ast.GeneratorExp, ast.ListComp)):
         outer = ret.args[0]
         if len(outer.generators) == 1 and norm(outer.generators[0].iter) == "self.data" and not outer.generators[0].ifs:
@@ -281,14 +339,33 @@ def pattern_raw_data(repo: Repo, rep, P: str):
     clear = pat.methods.get("clear")
     if clear is None:
         raise AnchorMissing("Pattern.clear")
+    clear = inline.normalize(repo, pat, clear)
     src = norm(clear)
-    outer_lines = any(isinstance(n, ast.For) and norm(n.iter) == "range(self.lines)" for n in ast.walk(clear))
-    inner_tracks = "range(self.tracks)" in src
-    if outer_lines and inner_tracks:
+
+    def iterations(root: ast.AST, bound: str):
+        for n in ast.walk(root):
+            if isinstance(n, ast.For) and norm(n.iter) == f"range({bound})":
+                yield n
+            if isinstance(n, ast.comprehension) and norm(n.iter) == f"range({bound})":
+                yield n
+    nested = False
+    for outer in ast.walk(clear):
+        its = []
+        if isinstance(outer, ast.For) and norm(outer.iter) == "range(self.lines)":
+            its = [outer]
+        elif isinstance(outer, (ast.ListComp, ast.GeneratorExp)) and any(norm(g.iter) == "range(self.lines)" for g in outer.generators):
+            its = [outer]
+        for o in its:
+            inner_root = o if isinstance(o, ast.For) else o.elt
+            if any(True for _ in iterations(inner_root, "self.tracks")):
+                nested = True
+    if nested:
         rep.ok(f"{P}.R2", f"{pat.file.rel}:Pattern.clear", "rows = range(self.lines), cells = range(self.tracks)")
-    else:
+    elif "range(self.lines)" in src or "range(self.tracks)" in src:
         rep.violation(f"{P}.R2", f"{pat.file.rel}:Pattern.clear", src[:120],
                       "the cell array is not built as `lines` rows of `tracks` cells", f"{pat.file.rel}:{clear.lineno}")
+    else:
+        rep.inconclusive(f"{P}.R2", f"{pat.file.rel}:Pattern.clear", src[:120], "construction of the empty cell array not recognised", f"{pat.file.rel}:{clear.lineno}")
 
 
 def _packed_fields(repo: Repo, note) -> List[str]:
